@@ -363,7 +363,19 @@ package updown
 //@   before if#4: do gUp[distance] = true
 //@   before if#5: do gDown[distance] = true
 //@   before if#6: do gSide[distance] = true
+//@   # no target is dropped silently (same accounting as in findUpDownCatchment): judged at the end of every iteration
+//@   ghost gIgn bool = false
+//@   ghost gCmp bool = false
+//@   ghost gBinned bool = false
+//@   ghost gMissed int = 0
+//@   ghost gN0 int = 0
+//@   before call:whichWay#1: do gCmp = true
+//@   before switch#1: do gBinned = true; if direction == 0 { gN0++ }
 //@   loop 1:
+//@     do-start gIgn = exists(k, 0, len(ignore), ignore[k] == target.id); gCmp = false; gBinned = false
+//@     do-end if !gIgn && !gCmp { gMissed++ }; if gCmp && distance >= 0 && !gBinned { gMissed++ }
+//@     invariant [c08.every.target] gMissed == 0
+//@     invariant [c08.same.all] len(same.catchment) == gN0
 //@     invariant len(sent(cOut)) == 0
 //@     invariant [up.wf] forallint(k, implies(in(pushup.catchmentMap, k), k >= 0 && k <= pushup.maxDist)) && len(pushup.catchmentMap) <= pushDist && pushup.nDists == len(pushup.catchmentMap) && (len(pushup.catchmentMap) == 0 || in(pushup.catchmentMap, pushup.maxDist))
 //@     invariant [down.wf] forallint(k, implies(in(pushdown.catchmentMap, k), k >= 0 && k <= pushdown.maxDist)) && len(pushdown.catchmentMap) <= pushDist && pushdown.nDists == len(pushdown.catchmentMap) && (len(pushdown.catchmentMap) == 0 || in(pushdown.catchmentMap, pushdown.maxDist))
